@@ -1306,6 +1306,7 @@ pub (in crate::llir::lower) fn assign_registers(
             "float": regs(&remaining_scratch_regs_by_ty[ScalarType::Float]),
             "explicit": explicitly_used_regs.keys().map(|r| r.0).collect::<Vec<_>>(),
             "params": implicitly_used_regs.keys().map(|r| r.0).collect::<Vec<_>>(),
+            "sub": def_id.map(|def_id| ctx.defs.func_name(def_id).to_string()),
         })
     });
 
